@@ -80,6 +80,69 @@ pub fn faults(r: &mut Rng, b: &[u8], n: usize) -> Vec<Vec<u8>> {
     out
 }
 
+/// a second document derived from the first: mutate one leaf, drop / duplicate / reorder
+/// elements, re-type a number, extend a string, nest one level, or an unrelated one
+pub fn derive(r: &mut Rng, c: &DocCfg, v: &Value<'static>) -> Value<'static> {
+    match r.below(10) {
+        0 => v.clone(),
+        1 => gen_value(r, c, 0),
+        2 => Value::Array(vec![v.clone()]),
+        3 => match v { Value::Array(vs) if !vs.is_empty() => vs[r.below(vs.len() as u64) as usize].clone(), Value::Object(o) if !o.is_empty() => o.values().nth(r.below(o.len() as u64) as usize).unwrap().clone(), _ => gen_scalar(r, c) },
+        _ => mutate(r, c, v),
+    }
+}
+
+pub fn retype(r: &mut Rng, n: &Number) -> Number {
+    match n {
+        Number::UInt64(u) if *u <= i64::MAX as u64 => if r.chance(1, 2) { Number::Int64(*u as i64) } else { Number::Float64(*u as f64) },
+        Number::Int64(i) if *i >= 0 => if r.chance(1, 2) { Number::UInt64(*i as u64) } else { Number::Float64(*i as f64) },
+        Number::Int64(i) => Number::Float64(*i as f64),
+        Number::UInt64(u) => Number::Float64(*u as f64),
+        Number::Float64(f) => if f.fract() == 0.0 && f.abs() < 9e18 { Number::Int64(*f as i64) } else { Number::Float64(-*f) },
+    }
+}
+
+pub fn mutate(r: &mut Rng, c: &DocCfg, v: &Value<'static>) -> Value<'static> {
+    match v {
+        Value::Array(vs) => {
+            let mut vs = vs.clone();
+            match r.below(7) {
+                0 if !vs.is_empty() => { let i = r.below(vs.len() as u64) as usize; vs.remove(i); }
+                1 if !vs.is_empty() => { let i = r.below(vs.len() as u64) as usize; let x = vs[i].clone(); vs.push(x); }
+                2 if vs.len() > 1 => { vs.reverse(); }
+                3 => { vs.push(gen_value(r, c, 1)); }
+                4 if vs.len() > 1 => { let i = r.below(vs.len() as u64) as usize; let x = vs.remove(i); vs.insert(0, x); }
+                _ if !vs.is_empty() => { let i = r.below(vs.len() as u64) as usize; vs[i] = mutate(r, c, &vs[i].clone()); }
+                _ => { vs.push(gen_scalar(r, c)); }
+            }
+            Value::Array(vs)
+        }
+        Value::Object(o) => {
+            let mut o = o.clone();
+            match r.below(5) {
+                0 if !o.is_empty() => { let k = o.keys().nth(r.below(o.len() as u64) as usize).unwrap().clone(); o.remove(&k); }
+                1 => { o.insert(gen_key(r), gen_value(r, c, 1)); }
+                _ if !o.is_empty() => { let k = o.keys().nth(r.below(o.len() as u64) as usize).unwrap().clone(); let x = mutate(r, c, &o[&k].clone()); o.insert(k, x); }
+                _ => { o.insert(gen_key(r), gen_scalar(r, c)); }
+            }
+            Value::Object(o)
+        }
+        Value::Number(n) => Value::Number(retype(r, n)),
+        Value::String(s) => Value::String(std::borrow::Cow::Owned(format!("{}{}", s, r.pick(&["", "a", "\u{1}", "\u{0}", "z"])))),
+        Value::Bool(b) => Value::Bool(!b),
+        Value::Null => gen_scalar(r, c),
+    }
+}
+
+/// prior buffer content: empty, random bytes, or a document (a batch of earlier results)
+pub fn gen_prefix(r: &mut Rng, c: &DocCfg) -> String {
+    match r.below(4) {
+        0 => "-".to_string(),
+        1 => hex(&gen_value(r, c, 1).to_vec()),
+        _ => { let n = 1 + r.below(12) as usize; hex(&(0..n).map(|_| r.next() as u8).collect::<Vec<u8>>()) }
+    }
+}
+
 /// a key path drawn from the document: follows existing members / indices (negative ones too),
 /// sometimes steps past the end, into scalars, or uses the wrong kind of step
 pub fn gen_keypath(r: &mut Rng, v: &Value) -> Vec<jsonb::keypath::KeyPath<'static>> {
@@ -169,6 +232,33 @@ pub fn gen(prop: &str, tier: &str, seed: u64) -> Out {
                 o.push(format!("numdec 40{:04x}", x));
                 o.push(format!("numdec 50{:04x}", x));
                 x += step;
+            }
+            // ordering: all pairs of boundary numbers, neighbours of each float, random triples
+            let nums = all_numbers();
+            let stride = if tier == "thorough" { 1 } else { 3 };
+            for (i, a) in nums.iter().enumerate() {
+                o.push(format!("numview {}", show_num(a)));
+                for (j, b) in nums.iter().enumerate() {
+                    if (i + j) % stride != 0 { continue; }
+                    o.push(format!("numcmp {} {}", show_num(a), show_num(b)));
+                    o.push(format!("spec:numcmp {} {}", show_num(a), show_num(b)));
+                }
+            }
+            for _ in 0..scale(tier, 2000, 100000) {
+                let a = gen_number(&mut r, true);
+                // a number near `a` in another representation
+                let b = match r.below(4) {
+                    0 => retype(&mut r, &a),
+                    1 => match &a { Number::Float64(f) => { let t = f.trunc(); if t.abs() < 1.8e19 && t >= 0.0 { Number::UInt64((t as u64).wrapping_add(r.below(3)).wrapping_sub(1)) } else if t.abs() < 9e18 { Number::Int64((t as i64).wrapping_add(r.range(-1, 1))) } else { gen_number(&mut r, true) } }
+                                    Number::UInt64(u) => Number::Float64(f64::from_bits((*u as f64).to_bits().wrapping_add(r.below(3)).wrapping_sub(1))),
+                                    Number::Int64(i) => Number::Float64(f64::from_bits((*i as f64).to_bits().wrapping_add(r.below(3)).wrapping_sub(1))) },
+                    _ => gen_number(&mut r, true),
+                };
+                let c2 = if r.chance(1, 2) { retype(&mut r, &b) } else { gen_number(&mut r, true) };
+                o.push(format!("numcmp {} {}", show_num(&a), show_num(&b)));
+                o.push(format!("spec:numcmp {} {}", show_num(&a), show_num(&b)));
+                o.push(format!("numlaws {} {} {}", show_num(&a), show_num(&b), show_num(&c2)));
+                o.push(format!("numview {}", show_num(&b)));
             }
             for _ in 0..scale(tier, 3000, 200000) {
                 let n = gen_number(&mut r, true);
@@ -264,6 +354,61 @@ pub fn gen(prop: &str, tier: &str, seed: u64) -> Out {
                 o.push(format!("strf64 {}", hex(s.as_bytes())));
                 let dv = Value::String(std::borrow::Cow::Owned(s.to_string())).to_vec();
                 for op in ["tobool", "toi64", "tou64"] { o.push(format!("{} {}", op, hex(&dv))); }
+            }
+        }
+        "C06" | "C13" => {
+            let sets = prop == "C13";
+            for _ in 0..scale(tier, 500, 15000) {
+                let v = gen_value(&mut r, &c, 0);
+                let w = derive(&mut r, &c, &v);
+                o.doc_stats(&v);
+                let d = hex(&v.to_vec());
+                let e = hex(&w.to_vec());
+                let pre = gen_prefix(&mut r, &c);
+                let mut both = |o: &mut Out, l: String| { o.push(format!("spec:{}", l)); o.push(l); };
+                if sets {
+                    both(&mut o, format!("distinct {} {}", pre, d));
+                    both(&mut o, format!("inter {} {} {}", pre, d, e));
+                    both(&mut o, format!("except {} {} {}", pre, d, e));
+                    both(&mut o, format!("inter {} {} {}", pre, e, d));
+                    both(&mut o, format!("except {} {} {}", pre, e, d));
+                    both(&mut o, format!("overlap {} {}", d, e));
+                    both(&mut o, format!("overlap {} {}", e, d));
+                    both(&mut o, format!("inter {} {} {}", pre, d, d));
+                    continue;
+                }
+                both(&mut o, format!("concat {} {} {}", pre, d, e));
+                both(&mut o, format!("concat {} {} {}", pre, e, d));
+                both(&mut o, format!("strip {} {}", pre, d));
+                let mut names: Vec<String> = vec![gen_key(&mut r), gen_string(&mut r, false)];
+                if let Value::Object(ob) = &v { for k in ob.keys().take(3) { names.push(k.clone()); } }
+                if let Value::Array(vs) = &v { for x in vs.iter().take(3) { if let Value::String(s) = x { names.push(s.to_string()); } } }
+                for n in &names { both(&mut o, format!("delname {} {} {}", pre, d, hex(n.as_bytes()))); }
+                let len = match &v { Value::Array(vs) => vs.len() as i64, _ => 1 };
+                for i in [0, len - 1, len, len + 1, -1, -len, -len - 1, i32::MIN as i64, i32::MAX as i64, r.range(-len - 2, len + 2)] {
+                    both(&mut o, format!("delidx {} {} {}", pre, d, i));
+                    both(&mut o, format!("arrins {} {} {} {}", pre, d, i, e));
+                }
+                for _ in 0..5 {
+                    let kp = gen_keypath(&mut r, &v);
+                    both(&mut o, format!("delkp {} {} {}", pre, d, crate::ops_access::show_keypath(&kp)));
+                }
+                for n in &names {
+                    both(&mut o, format!("objins {} {} {} {} 0", pre, d, hex(n.as_bytes()), e));
+                    both(&mut o, format!("objins {} {} {} {} 1", pre, d, hex(n.as_bytes()), e));
+                }
+                for n in 0..=names.len().min(3) {
+                    let sel: Vec<String> = (0..n).map(|_| hex(r.pick(names.as_slice()).as_bytes())).collect();
+                    let arg = if sel.is_empty() { "[]".to_string() } else { sel.join(";") };
+                    both(&mut o, format!("objdel {} {} {}", pre, d, arg));
+                    both(&mut o, format!("objpick {} {} {}", pre, d, arg));
+                }
+                // build from parts: sorted, unsorted and repeated keys
+                let parts: Vec<Value> = (0..r.below(5)).map(|_| gen_value(&mut r, &c, 1)).collect();
+                let docs: Vec<String> = parts.iter().map(|p| hex(&p.to_vec())).collect();
+                both(&mut o, format!("barr {} {}", pre, if docs.is_empty() { "[]".to_string() } else { docs.join(";") }));
+                let kvs: Vec<String> = docs.iter().map(|dd| format!("{}:{}", hex(r.pick(&["b", "a", "", "é", "a", "k", "ab"]).as_bytes()), dd)).collect();
+                both(&mut o, format!("bobj {} {}", pre, if kvs.is_empty() { "[]".to_string() } else { kvs.join(";") }));
             }
         }
         "C17" => {
